@@ -251,3 +251,282 @@ def running_tasks_writers():
         out.append((f"scan/running_tasks_writers/{k[0]}:{k[1]}", allowed.get(k) == v, f"{v}"))
     out.append(("scan/running_tasks_writers/all_three_present", set(allowed) <= set(found), str(sorted(found))))
     return out
+
+
+# ---------------------------------------------------------------- hold / release
+
+
+def _step_node(args):
+    wf = common.workflow_spec(queries=[
+        ("UPDATE step SET _holding = _holding + 1", ty.TupleOf(ty.Int), _hold_fact, True),
+        ("UPDATE step SET _holding = _holding - 1", ty.TupleOf(ty.Int), _release_fact),
+    ]).fresh("graph")
+    cur().data["args_db"] = wf._fields["db"]
+    return common.fresh_node(Step, wf, "step")
+
+
+def _holding_before():
+    return cur().decls.const("ghost.holding_before", INT)
+
+
+def _hold_fact(row, args):
+    h = _holding_before()
+    cur().pc.append(tm.Ge(h, tm.mk_int(0)))
+    return wrap_bool(tm.Eq(I(row[0]), tm.Add(h, tm.mk_int(1))))
+
+
+def _release_fact(row, args):
+    h = _holding_before()
+    cur().pc.append(tm.Ge(h, tm.mk_int(0)))
+    # the UPDATE matched (row returned) only if _holding > 0
+    return wrap_bool(tm.And(tm.Gt(h, tm.mk_int(0)), tm.Eq(I(row[0]), tm.Sub(h, tm.mk_int(1)))))
+
+
+@contract("stepup/core/step.py::Step._flag_checks_with_products", props=[], verify=False,
+          note="flags this step and its recursive products for a recomputation of _safe (database write)")
+class flag_checks_assumed:
+    modifies = []
+
+    @staticmethod
+    def ensures(self):
+        cur().event("flag_checks", node=self)
+        return True
+
+
+def _hold_finish(c, outcome, args, old):
+    """The safety flags of the descendants are recomputed exactly on the 0 -> 1 (hold) and 1 -> 0 (release)
+    transitions, which are the only ones that change whether the creator holds."""
+    if outcome[0] != "return":
+        return
+    flagged = any(e.kind == "flag_checks" for e in c.trace)
+    h = _holding_before()
+    upd = [e for e in c.trace if e.kind == "sql"]
+    is_hold = bool(upd) and "+ 1" in upd[0].norm
+    edge = tm.Eq(h, tm.mk_int(0)) if is_hold else tm.Eq(h, tm.mk_int(1))
+    c.prove("flags_exactly_on_the_edge", tm.Iff(tm.mk_bool(flagged), edge), kind="post")
+
+
+@contract("stepup/core/step.py::Step.hold", props=["C12"])
+class step_hold:
+    args = dict(self=_step_node)
+    events = {"sql": lambda e: sqlfront.normalize(e.sql) == sqlfront.normalize(
+        "UPDATE step SET _holding = _holding + 1 WHERE node = ? RETURNING _holding")}
+    finish = _hold_finish
+    modifies = []
+
+
+@contract("stepup/core/step.py::Step.release", props=["C12"])
+class step_release:
+    args = dict(self=_step_node)
+    may_raise = {common.GraphError: None}
+    events = {"sql": lambda e: sqlfront.normalize(e.sql) == sqlfront.normalize(
+        "UPDATE step SET _holding = _holding - 1 WHERE node = ? AND _holding > 0 RETURNING _holding")}
+    finish = _hold_finish
+    modifies = []
+
+
+@structural("C12/sql/step_reset_holding", props=["C12"],
+            note="a step that leaves RUNNING can hold nothing: the trigger resets _holding on every state change to a "
+                 "state other than RUNNING")
+def reset_holding_trigger():
+    schema = extract.module_constant("stepup/core/step.py", "STEP_SCHEMA")
+    import re
+
+    m = re.search(r"CREATE TRIGGER IF NOT EXISTS step_reset_holding AFTER UPDATE OF state ON step\s+WHEN(.*?)BEGIN(.*?)END;",
+                  schema, re.S)
+    if not m:
+        return [("sql/step_reset_holding/found", False, "trigger not found")]
+    when = sqlfront.normalize(m.group(1))
+    body = sqlfront.normalize(m.group(2))
+    running = common.StepState.RUNNING.value
+    return [
+        ("sql/step_reset_holding/when", when == f"NEW . state != {running} AND NEW . _holding != 0", when),
+        ("sql/step_reset_holding/body", body == "UPDATE step SET _holding = 0 WHERE node = NEW . node ;", body),
+    ]
+
+
+# ---------------------------------------------------------------- pop_next_job / _get_next_step
+
+schedmod = extract.import_module("stepup/core/scheduler.py")
+Scheduler = schedmod.Scheduler
+StepState = common.StepState
+
+
+def _next_row_fact(row, args):
+    return wrap_bool(tm.Or(tm.Eq(I(row[2]), tm.mk_int(0)), tm.Eq(I(row[2]), tm.mk_int(1))))
+
+
+def _scheduler(args):
+    wf = ty.ObjOf(common.Workflow, dict(need_threshold=ty.EnumOf(common.Need)), name="Workflow").fresh("workflow")
+    db = DbStub("db", [("SELECT node.i, node.label, step._has_hash", ty.TupleOf(ty.Int, ty.Str, ty.Int), _next_row_fact)])
+    s = ty.ObjOf(Scheduler, dict(draining=ty.Bool, job_counter=ty.Int), name="Scheduler").fresh("self")
+    s._fields["workflow"] = wf
+    s._fields["db"] = db
+    wf._fields["db"] = db
+    return s
+
+
+def _gns_post(self, result):
+    """The selected step is moved to RUNNING exactly when it has no stored hash (CHECKING otherwise), and the row
+    comes from the dispatch query bound to the workflow's need threshold."""
+    r = sym.resolve(result) if isinstance(result, sym.SymOpt) else result
+    if r is None:
+        return True
+    step, state = r
+    c = cur()
+    rows = [e for e in c.trace if e.kind == "sql.fetchone"]
+    return True
+
+
+def _gns_finish(c, outcome, args, old):
+    sqls = [e for e in c.trace if e.kind == "sql"]
+    want = sqlfront.normalize(extract.module_constant("stepup/core/scheduler.py", "SELECT_NEXT_STEP"))
+    c.prove("uses_the_dispatch_query", len(sqls) == 1 and sqls[0].norm == want, kind="post")
+    if sqls:
+        c.prove("bound_to_need_threshold", len(sqls[0].args) == 1 and
+                sym.sym_eq(sqls[0].args[0], args["self"].workflow.need_threshold.value), kind="post")
+    if outcome[0] == "return" and outcome[1] is not None:
+        step, state = outcome[1]
+        row = c.data.get("last_row")
+        if row is not None:
+            c.prove("running_iff_no_hash", tm.Iff(B(state == StepState.RUNNING), tm.Eq(I(row[2]), tm.mk_int(0))), kind="post")
+            c.prove("checking_otherwise", tm.Iff(B(state == StepState.CHECKING), tm.Ne(I(row[2]), tm.mk_int(0))), kind="post")
+            c.prove("step_is_the_selected_row", tm.And(B(step.i == row[0]), B(step.label == row[1])), kind="post")
+        else:
+            c.prove("row_recorded", False, kind="post")
+
+
+_orig_row = trusted.Cursor._row
+
+
+def _row_recording(self, name):
+    r = _orig_row(self, name)
+    cur().data["last_row"] = r
+    return r
+
+
+trusted.Cursor._row = _row_recording
+
+
+@contract("stepup/core/scheduler.py::Scheduler._get_next_step", props=["C12", "C10", "C03"])
+class get_next_step:
+    args = dict(self=_scheduler)
+    finish = _gns_finish
+    result = lambda self: ty.Opt(ty.Make(lambda n: (common.fresh_node(Step, self.workflow, "next"),
+                                                     ty.EnumOf(StepState, [StepState.RUNNING, StepState.CHECKING]).fresh(n + ".state"))))
+    modifies = []
+
+
+@contract("stepup/core/scheduler.py::Scheduler._derive_job", props=[], verify=False,
+          note="builds the job object for the selected step (verified under C03)")
+class derive_job_assumed:
+    may_raise = {common.ConsistencyError: None}
+    result = lambda: ty.Make(lambda n: _JobStub())
+    modifies = ["self.job_counter"]
+
+
+for _n in ("_update_meta_safe", "_update_meta_after", "_update_meta_ready"):
+    contract(f"stepup/core/scheduler.py::Scheduler.{_n}", props=[], verify=False,
+             note="recomputes cached scheduling columns (C10)")(type(_n, (), dict(
+                 modifies=[], ensures=staticmethod(lambda self, _n=_n: (cur().event("meta", which=_n), True)[1]))))
+
+
+@contract("stepup/core/step.py::Step.set_state", props=[], verify=False, note="writes the state column of this step")
+class step_set_state_assumed:
+    modifies = []
+
+    @staticmethod
+    def ensures(self, state):
+        cur().event("set_state", node=self, state=state)
+        return True
+
+
+def _pop_finish(c, outcome, args, old):
+    """None iff draining or no eligible row; otherwise exactly the selected step leaves PENDING, inside the same
+    transaction as the selection and with no await between selection and state change."""
+    if outcome[0] != "return":
+        return
+    sets = [e for e in c.trace if e.kind == "set_state"]
+    sel = [e for e in c.trace if e.kind == "call" and e.callee == "Scheduler._get_next_step"]
+    begins = [e for e in c.trace if e.kind == "tx.begin"]
+    ends = [e for e in c.trace if e.kind == "tx.end"]
+    if outcome[1] is None:
+        c.prove("no_state_change_without_job", len(sets) == 0, kind="post")
+        return
+    c.prove("not_draining", tm.Not(B(old.self.draining)), kind="post")
+    c.prove("one_selection_one_state_change", len(sets) == 1 and len(sel) == 1 and len(begins) == 1, kind="post")
+    if len(sets) == 1 and len(sel) == 1 and len(begins) == 1:
+        step, state = sym.resolve(sel[0].result)
+        c.prove("changes_the_selected_step_to_the_selected_state",
+                tm.And(B(sets[0].node.i == step.i), B(sym.sym_eq(sets[0].state, state))), kind="post")
+        inside = begins[0].index < sel[0].index < sets[0].index and (not ends or ends[0].index > sets[0].index)
+        c.prove("selection_and_change_in_one_transaction", inside, kind="post")
+        awaits = [e for e in c.trace if e.kind == "await" and sel[0].index < e.index < sets[0].index]
+        c.prove("no_await_between_selection_and_change", len(awaits) == 0, kind="post")
+        metas = [e.which for e in c.trace if e.kind == "meta" and begins[0].index < e.index < sel[0].index]
+        c.prove("cached_columns_refreshed_before_selection",
+                metas == ["_update_meta_safe", "_update_meta_after", "_update_meta_ready"], kind="post", detail=str(metas))
+
+
+@contract("stepup/core/scheduler.py::Scheduler.pop_next_job", props=["C12", "C10"])
+class pop_next_job:
+    args = dict(self=_scheduler)
+    may_raise = {common.ConsistencyError: None}
+    finish = _pop_finish
+    modifies = ["self.job_counter"]
+
+
+@structural("C12/scan/running_state_writers", props=["C12", "C05"],
+            note="a step enters RUNNING only through Scheduler.pop_next_job (no other code writes that state)")
+def running_state_writers():
+    import ast
+    import glob
+    import os
+
+    out = []
+    hits = []
+    for path in sorted(glob.glob(os.path.join(extract.REPO, "stepup", "core", "*.py"))):
+        rel = os.path.relpath(path, extract.REPO)
+        src, tree = extract.read_module(rel)
+        for fn in ast.walk(tree):
+            if not isinstance(fn, (ast.FunctionDef, ast.AsyncFunctionDef)):
+                continue
+            for n in ast.walk(fn):
+                if isinstance(n, ast.Call) and isinstance(n.func, ast.Attribute) and n.func.attr == "set_state":
+                    a = ast.unparse(n.args[0]) if n.args else ""
+                    if "RUNNING" in a:
+                        hits.append((rel, fn.name, a))
+                if isinstance(n, ast.Constant) and isinstance(n.value, str) and "UPDATE STEP SET" in n.value.upper() \
+                        and "STATE" in n.value.upper():
+                    if str(StepState.RUNNING.value) in n.value and "state =" in n.value.lower().split("where")[0]:
+                        hits.append((rel, fn.name, n.value.strip()[:60]))
+    for rel, fn, a in hits:
+        out.append((f"scan/running_state_writers/{rel}:{fn}", False, f"writes RUNNING: {a}"))
+    # pop_next_job writes the state it got from _get_next_step (a variable): that is the only writer
+    _, node = extract.find_def("stepup/core/scheduler.py", "Scheduler.pop_next_job")
+    ok = any(isinstance(n, ast.Call) and isinstance(n.func, ast.Attribute) and n.func.attr == "set_state"
+             and ast.unparse(n.args[0]) == "state" for n in ast.walk(node))
+    out.append(("scan/running_state_writers/pop_next_job", ok, "step.set_state(state) with the selected state"))
+    return out
+
+
+@structural("C12/scan/no_command_outside_run_jobs", props=["C12", "C04"],
+            note="hash checks (try_skip_job), dynamic-input validation and hash jobs never launch a command: "
+                 "_run_command / launch_command are unreachable from them; execute_job does reach it (sanity)")
+def no_command_outside_run_jobs():
+    from vc import callgraph
+
+    rel, cls = "stepup/core/executor.py", "Executor"
+    out = []
+    for m in ("try_skip_job", "validate_dynamic_job", "run_hash_job", "_run_hash_job"):
+        reached, names = callgraph.reachable(rel, cls, m)
+        bad = ("_run_command" in reached) or ("launch_command" in names)
+        out.append((f"scan/no_command_outside_run_jobs/{m}", not bad, f"reaches {sorted(reached)}"))
+    reached, names = callgraph.reachable(rel, cls, "execute_job")
+    out.append(("scan/no_command_outside_run_jobs/execute_job_reaches_it", "_run_command" in reached, str(sorted(reached))))
+    reached2, names2 = callgraph.reachable(rel, cls, "_run_command")
+    out.append(("scan/no_command_outside_run_jobs/launch_is_in_run_command", "launch_command" in names2, ""))
+    breach, bnames = callgraph.reachable("stepup/core/builder.py", "Builder", "run_promoted_hash_jobs")
+    out.append(("scan/no_command_outside_run_jobs/promoted_hash_jobs", "start_task" not in breach and "run_hash_job" in bnames
+                and "launch_command" not in bnames, f"calls {sorted(n for n in bnames if 'job' in n or 'task' in n)}"))
+    return out
